@@ -1,5 +1,9 @@
 package main
 
-func fragOverlay(repo string, all []*Contract, pkgs []string) map[string][]byte { return nil }
+func fragOverlay(repo string, all []*Contract, pkgs []string) map[string][]byte {
+	return fragOverlayWith(repo, all, pkgs, nil)
+}
 
-func runSelftest(repo, verif, prop, tier string) int { return 0 }
+func fragOverlayWith(repo string, all []*Contract, pkgs []string, base map[string][]byte) map[string][]byte {
+	return base
+}
